@@ -30,9 +30,14 @@ func init() {
 			"IP-literal entries, written lower/MIXED/UPPER case) x 0-3 reject-origin patterns (* and ? at start/middle/end, adjacent stars, longer/shorter than " +
 			"the subject, exact, empty) x MaxRecipients {1,2,5}, written to INBUCKET_SMTP_* variables and loaded by config.Process(); 200 domains per " +
 			"configuration (pool in random/upper case, listed entries re-cased, sub-domains, near-misses, pattern instances and near-misses, empty, random). " +
-			"session: same configurations, 1-3 transactions of MAIL (incl. <>) + 1..Max+3 RCPT + DATA/RSET with plain atom@domain addresses. " +
+			"session: same configurations, 1-3 transactions of MAIL (incl. <>) + 1..Max+3 RCPT + DATA/RSET with plain atom@domain addresses; a quarter with " +
+			"an allowing Go listener, a third with a real Lua script (file + luahost.New) whose before.mail_from_accepted / before.rcpt_to_accepted / " +
+			"before.message_stored hooks are absent or take no decision (raise a string/table/nil, runtime error, modify-then-raise, return nothing/nil/false/" +
+			"smtp.defer()/a value of the wrong type, raise for some inputs only). Half of the reject-origin patterns are composed by a random walk over a " +
+			"domain (keep / '?' / '*' for a run / inserted wildcard at every position, wildcard prefix and suffix), a third of the senders are instances of " +
+			"a configured pattern or one edit away. " +
 			"wild-exh: every pattern over {a,b,*,?} against every subject over {a,b,c} up to the tier's lengths; wild-rand: longer random pairs, half of them " +
-			"pattern instances or one edit away. Non-trivial and distinct by (defaults, limit, outcome classes observed) for sessions, by (defaults, list/" +
+			"pattern instances or one edit away; both through MatchWithWildcards and through ShouldAcceptOriginDomain with a one-pattern list. Non-trivial and distinct by (defaults, limit, outcome classes observed) for sessions, by (defaults, list/" +
 			"pattern shape, decisions) for configurations, by (pattern shape, result) for matcher cases.",
 		Assumptions: []string{
 			"list membership is exact string equality ignoring ASCII case (doc/config.md: 'present in the list'); no sub-domain or trailing-dot equivalence is assumed",
@@ -40,10 +45,11 @@ func init() {
 			"matcher subjects never contain '*' or '?' (a domain accepted by the address parser cannot)",
 			"an environment list consisting of a single empty entry is the unset list; the empty pattern is only generated next to another entry",
 			"live sessions use plain atom@domain without ESMTP parameters and syntactically valid domains, so every 5xx to MAIL/RCPT is a policy decision",
+			"an extension listener that answers nothing usable (nil, false, a raised error, a value of another type) or smtp.defer() has taken no decision: the configured domain policy decides as if no extension were there; listeners are asked in registration order until one answers non-nil (extension.EventBroker.Emit), so an explicit smtp.defer() in front of the allowing Go listener hides that listener",
 			"several configurations are loaded one after another in one child process by rewriting the INBUCKET_SMTP_* variables before each config.Process() call",
 		},
 		MinObs: func(tier string) map[string]int64 {
-			return map[string]int64{
+			mo := map[string]int64{
 				"configs_loaded": 1000, "predicate_evals": 500000,
 				"accept_true": 50000, "accept_false": 50000, "store_true": 50000, "store_false": 50000,
 				"origin_true": 50000, "origin_false": 20000, "decided_by_case_folding": 5000,
@@ -52,7 +58,25 @@ func init() {
 				"messages_stored": 1500, "recipients_discarded": 1000, "transactions_at_limit": 500,
 				"wild_pairs": 400000, "wild_match_true": 20000, "wild_match_false": 100000,
 				"distinct_nontrivial": 500,
+				// added after seeded change C05-8: every pair also through the policy predicate
+				"origin_single_pattern_pairs": 400000,
+				// added after seeded change C05-7: sessions under a Lua script that takes no decision
+				"lua_sessions": 1000, "lua_sessions_failing_stored_hook": 700, "lua_transactions_delivered": 1000,
+				"lua_before_stored_emissions": 1000, "lua_discarded_under_failing_stored_hook": 700,
+				"lua_rcpt_refused_policy_under_failing_hook": 1500, "lua_rcpt_refused_limit_under_failing_hook": 500,
+				"lua_mail_refused_under_failing_hook": 700,
 			}
+			for _, k := range []string{"raise-string", "raise-table", "raise-nil", "runtime-error", "return-junk", "return-nil",
+				"return-false", "return-nothing", "mutate-raise", "raise-sometimes"} {
+				mo["lua_stored_hook_"+k+"_discarded"] = 30
+				mo["lua_stored_hook_"+k+"_stored"] = 30
+			}
+			// every arrangement of wildcards decided both ways, at the predicate and on MAIL commands
+			for _, f := range patFeatureList {
+				mo["pat_"+f+"_match"], mo["pat_"+f+"_nomatch"] = 3000, 3000
+				mo["mailcmd_"+f+"_match"], mo["mailcmd_"+f+"_nomatch"] = 100, 100
+			}
+			return mo
 		},
 		Run: run,
 	})
@@ -86,6 +110,9 @@ func configCase(c *fw.Ctx, r *fw.Rand) {
 	c.Count("configs_loaded", 1)
 	pol := &policy.Addressing{Config: conf}
 	seen := map[string]bool{}
+	acc := map[string]int64{}
+	defer flushCounts(c, acc)
+	originSeen := map[string]bool{} // (input class, arrangements of the patterns that matched)
 	for k := 0; k < 200; k++ {
 		d, cls := genDomainInput(r, m)
 		lower := d == strings.ToLower(d)
@@ -123,6 +150,10 @@ func configCase(c *fw.Ctx, r *fw.Rand) {
 				m.describe())
 		}
 		c.Count("predicate_evals", 3)
+		hitBy := countPatternDecisions(acc, "pat", m, d)
+		if len(hitBy) > 0 {
+			originSeen["config-origin|"+cls+"|"+strings.Join(hitBy, ",")] = true
+		}
 		c.Count("accept_"+tf(wantA), 1)
 		c.Count("store_"+tf(wantS), 1)
 		c.Count("origin_"+tf(wantO), 1)
@@ -137,6 +168,9 @@ func configCase(c *fw.Ctx, r *fw.Rand) {
 		ks = append(ks, k)
 	}
 	sort.Strings(ks)
+	for k := range originSeen {
+		c.NonTrivial(k)
+	}
 	c.NonTrivial(fmt.Sprintf("config|%v%v|%d%d%d%d|%s|%s", m.DefAccept, m.DefStore, min1(len(m.Accept)), min1(len(m.Reject)), min1(len(m.Store)), min1(len(m.Discard)),
 		patShapes(m.Origins), strings.Join(ks, ",")))
 	if r.Chance(1, 300) {
@@ -241,7 +275,7 @@ func sessionCase(c *fw.Ctx, r *fw.Rand) {
 	// part starts with "al": that overrides the domain lists, but the recipient limit (and the
 	// store rule) still apply.
 	allowExt := r.Chance(1, 4)
-	if allowExt {
+	addAllow := func() {
 		env.ExtHost.Events.BeforeRcptToAccepted.AddListener("c05-allow", func(s event.SMTPSession) *event.SMTPResponse {
 			if n := len(s.To); n > 0 && strings.HasPrefix(s.To[n-1].Address, "al") {
 				return &event.SMTPResponse{Action: event.ActionAllow}
@@ -250,6 +284,41 @@ func sessionCase(c *fw.Ctx, r *fw.Rand) {
 		})
 		c.Count("sessions_with_allowing_extension", 1)
 	}
+	// Added after seeded change C05-7: a third of the sessions run with a real Lua script whose
+	// hooks take no decision (see lua.go); the policy alone decides, the oracle below is unchanged.
+	// The script is loaded before or after the allowing Go listener.  A Go listener in front of the
+	// script counts the before-message-stored emissions (it answers nil = no decision).
+	var script *luaScript
+	allowShadowed := false
+	storedEmits := 0
+	if r.Chance(1, 3) {
+		sc := genIdleScript(r)
+		script = &sc
+		allowFirst := r.Bool()
+		if allowExt && allowFirst {
+			addAllow()
+		}
+		env.ExtHost.Events.BeforeMessageStored.AddListener("c05-count", func(event.InboundMessage) *event.InboundMessage {
+			storedEmits++
+			return nil
+		})
+		installLua(c, env.ExtHost, sc, c.Batch)
+		if allowExt && !allowFirst {
+			addAllow()
+			// Listeners are asked in order until one answers non-nil (extension.EventBroker.Emit):
+			// an explicit smtp.defer() of the script in front ends the chain, the allowing listener
+			// behind it is never asked and the domain lists decide.
+			allowShadowed = sc.Rcpt == "explicit-defer"
+		}
+		c.Count("lua_sessions", 1)
+		if failingKind(sc.Stored) {
+			c.Count("lua_sessions_failing_stored_hook", 1)
+		}
+	} else if allowExt {
+		addAllow()
+	}
+	acc := map[string]int64{}
+	defer flushCounts(c, acc)
 	ss := env.StartSMTP()
 	defer func() {
 		if !ss.Ended() && !ss.Close() {
@@ -259,6 +328,12 @@ func sessionCase(c *fw.Ctx, r *fw.Rand) {
 	fail := func(key, what string) {
 		d := m.describe()
 		d["allowing_extension"] = allowExt
+		if script != nil {
+			// a decision that differs only under a script that decides nothing gets its own key
+			key += ":lua-script-without-decision"
+			what += fmt.Sprintf(" [Lua script configured, hooks take no decision: mail_from=%s rcpt_to=%s message_stored=%s]", script.Mail, script.Rcpt, script.Stored)
+			d["lua_script"] = script.Source
+		}
 		d["trace"] = ss.Trace
 		c.Violation(key, what, d)
 	}
@@ -272,6 +347,12 @@ func sessionCase(c *fw.Ctx, r *fw.Rand) {
 	}
 	c.Count("sessions", 1)
 	outcomes := map[string]bool{}
+	extraSeen := map[string]bool{} // further non-trivial signatures: pattern arrangements, script hook kinds x decisions
+	defer func() {
+		for k := range extraSeen {
+			c.NonTrivial(k)
+		}
+	}()
 	stored := 0 // messages the store must hold so far
 	ntx := r.Range(1, 3)
 	uniq := 0
@@ -284,7 +365,7 @@ func sessionCase(c *fw.Ctx, r *fw.Rand) {
 			if empty {
 				line = "MAIL FROM:<>"
 			} else {
-				dom = sessionDomain(r, m)
+				dom = senderDomain(r, m)
 				line = "MAIL FROM:<" + r.Pick([]string{"sender", "Bounce-1", "a.b"}) + "@" + dom + ">"
 			}
 			rep, err := ss.Cmd(line)
@@ -308,6 +389,21 @@ func sessionCase(c *fw.Ctx, r *fw.Rand) {
 				}
 				fail(k, fmt.Sprintf("%s answered %s; reject-origin patterns %q say accept=%v", line, rep.String(), m.Origins, want))
 				return
+			}
+			// which arrangements of wildcards took (or just did not take) this decision
+			if hitBy := countPatternDecisions(acc, "mailcmd", m, dom); len(hitBy) > 0 {
+				extraSeen["session-origin|refused-by|"+strings.Join(hitBy, ",")] = true
+			}
+			if script != nil {
+				if want {
+					acc["lua_mail_accepted_hook_"+script.Mail]++
+				} else {
+					acc["lua_mail_refused_hook_"+script.Mail]++
+					if failingKind(script.Mail) {
+						c.Count("lua_mail_refused_under_failing_hook", 1)
+					}
+				}
+				extraSeen["lua|mail="+script.Mail+"|accepted="+tf(want)] = true
 			}
 			switch {
 			case empty && want:
@@ -366,7 +462,7 @@ func sessionCase(c *fw.Ctx, r *fw.Rand) {
 				return
 			}
 			polOK := m.accepts(dom)
-			if allowExt && strings.HasPrefix(local, "al") {
+			if allowExt && !allowShadowed && strings.HasPrefix(local, "al") {
 				polOK = true
 				c.Count("rcpt_allowed_by_extension", 1)
 			}
@@ -384,6 +480,22 @@ func sessionCase(c *fw.Ctx, r *fw.Rand) {
 				}
 				fail(k, fmt.Sprintf("%s answered %s; policy accept=%v, %d of %d recipients already accepted", line, rep.String(), polOK, len(accepted), m.Max))
 				return
+			}
+			if script != nil {
+				res := "accepted"
+				switch {
+				case !polOK:
+					res = "refused-policy"
+					if failingKind(script.Rcpt) {
+						c.Count("lua_rcpt_refused_policy_under_failing_hook", 1)
+					}
+				case !room:
+					res = "refused-limit"
+					if failingKind(script.Rcpt) {
+						c.Count("lua_rcpt_refused_limit_under_failing_hook", 1)
+					}
+				}
+				extraSeen["lua|rcpt="+script.Rcpt+"|"+res] = true
 			}
 			switch {
 			case want:
@@ -424,6 +536,11 @@ func sessionCase(c *fw.Ctx, r *fw.Rand) {
 				c.Inconclusive(fmt.Sprintf("end of DATA answered %v %v", rep, err))
 				return
 			}
+			if script != nil {
+				c.Count("lua_transactions_delivered", 1)
+				c.Count("lua_before_stored_emissions", int64(storedEmits))
+				storedEmits = 0
+			}
 		}
 		// store content: one message per accepted recipient whose domain the store rule admits
 		var names []string
@@ -458,9 +575,20 @@ func sessionCase(c *fw.Ctx, r *fw.Rand) {
 				stored++
 				c.Count("messages_stored", 1)
 				outcomes["stored"] = true
+				if script != nil {
+					acc["lua_stored_hook_"+script.Stored+"_stored"]++
+					extraSeen["lua|stored="+script.Stored+"|stored"] = true
+				}
 			default:
 				c.Count("recipients_discarded", 1)
 				outcomes["discarded"] = true
+				if script != nil {
+					acc["lua_stored_hook_"+script.Stored+"_discarded"]++
+					extraSeen["lua|stored="+script.Stored+"|discarded"] = true
+					if failingKind(script.Stored) {
+						c.Count("lua_discarded_under_failing_stored_hook", 1)
+					}
+				}
 			}
 		}
 		if n := sut.SnapCount(snap); n != stored {
@@ -545,8 +673,33 @@ func checkPair(c *fw.Ctx, p string, re *regexp.Regexp, s string) bool {
 		c.Violation(fmt.Sprintf("C05:MatchWithWildcards:leading=%s:expected=%v", lead, want),
 			fmt.Sprintf("MatchWithWildcards(%q, %q)=%v, the wildcard rules give %v", p, s, got, want), nil)
 	}
+	// Added after seeded change C05-8: the sender decision is taken by the policy predicate, which
+	// may do more than call the matcher; the same pair must come out the same through it (one
+	// pattern in the list; subjects here are lower case, so the predicate's folding is the identity).
+	originPol.Config.SMTP.RejectOriginDomains[0] = p
+	if refused := !originPol.ShouldAcceptOriginDomain(s); refused != want {
+		kind := "literal"
+		star, q := strings.Contains(p, "*"), strings.Contains(p, "?")
+		switch {
+		case p == "":
+			kind = "empty"
+		case star && q:
+			kind = "star-and-question"
+		case star:
+			kind = "star-only"
+		case q:
+			kind = "question-only"
+		}
+		c.Violation(fmt.Sprintf("C05:ShouldAcceptOriginDomain:single-pattern=%s:expected-refused=%v", kind, want),
+			fmt.Sprintf("with reject-origin list [%q] (%s), ShouldAcceptOriginDomain(%q)=%v; the wildcard rules say the pattern matches=%v",
+				p, strings.Join(patFeatures(p), ","), s, !refused, want), nil)
+	}
 	return want
 }
+
+// originPol is a policy whose reject-origin list holds the one pattern under test (checkPair).
+var originPol = &policy.Addressing{Config: &config.Root{SMTP: config.SMTP{DefaultAccept: true, DefaultStore: true,
+	RejectOriginDomains: []string{""}}}}
 
 func wildExhaustive(c *fw.Ctx, p string, subjects []string) {
 	re := wildRE(p)
@@ -562,6 +715,7 @@ func wildExhaustive(c *fw.Ctx, p string, subjects []string) {
 	c.Count("wild_match_true", int64(nt))
 	c.Count("wild_match_false", int64(nf))
 	c.Count("wild_exhaustive_patterns", 1)
+	c.Count("origin_single_pattern_pairs", int64(len(subjects)))
 	c.NonTrivial(fmt.Sprintf("wild-exh|%s|%d|%v%v", patShape(p), len(p), nt > 0, nf > 0))
 }
 
@@ -599,6 +753,7 @@ func wildRandom(c *fw.Ctx, r *fw.Rand) {
 		}
 		res := checkPair(c, p, nil, s)
 		c.Count("wild_pairs", 1)
+		c.Count("origin_single_pattern_pairs", 1)
 		c.Count("wild_match_"+tf(res), 1)
 		rel := "eq"
 		if len(p) > len(s) {
@@ -623,4 +778,30 @@ func instantiateABC(r *fw.Rand, p string) string {
 		}
 	}
 	return b.String()
+}
+
+// senderDomain is sessionDomain, except that with reject-origin patterns configured a third of
+// the senders are instances of a pattern or one edit away from one (added after seeded change
+// C05-8: the arrangement of the pattern decides, so the senders must sit at the patterns).
+func senderDomain(r *fw.Rand, m *policyModel) string {
+	if len(m.Origins) > 0 && r.Chance(1, 3) {
+		for try := 0; try < 20; try++ {
+			b := []byte(instantiate(r, r.Pick(m.Origins)))
+			if len(b) > 1 && r.Bool() {
+				i := r.Intn(len(b))
+				switch r.Intn(3) {
+				case 0:
+					b = append(b[:i], b[i+1:]...)
+				case 1:
+					b[i] = letters[r.Intn(26)]
+				default:
+					b = append(b[:i], append([]byte{letters[r.Intn(26)]}, b[i:]...)...)
+				}
+			}
+			if d := string(b); validDomain(d) {
+				return gen.RandCase(r, d)
+			}
+		}
+	}
+	return sessionDomain(r, m)
 }
